@@ -389,6 +389,8 @@ class SsbGraphMinimizer:
                     # Common end label
                     if len(v.out_edges()) < 2:
                         continue
+                    # The graph was changed since the cache was last filled (edge ids are not stable).
+                    find_first_common_next_vertex_in_edges__clear_cache(g)
                     result = find_first_common_next_vertex_in_edges(g, v.out_edges())
                     if result is not None:
                         end_vertex = result[0].target_vertex
